@@ -261,7 +261,12 @@ func (t *c12Tree) indexedPaths(o c12Obj) (paths []string, seg []int, lens []int)
 // directedOnce applies one directed mutation of one of three families; "" when the tree offers no site.
 func (gen *c12Gen) directedOnce(g *Rng, t *c12Tree) string {
 	switch k := g.Intn(100); {
-	case k < 8:
+	case k < 3:
+		if d := gen.directedOpenAPILayers(g, t); d != "" {
+			return d
+		}
+		return gen.directedBoundary(g, t)
+	case k < 10:
 		if d := gen.directedEmptyFile(g, t); d != "" {
 			return d
 		}
@@ -279,6 +284,45 @@ func (gen *c12Gen) directedOnce(g *Rng, t *c12Tree) string {
 		}
 		return gen.directedBoundary(g, t)
 	}
+}
+
+// ---------- family 5: `openapi:` in more than one layer ----------
+//
+// The schema is process-wide state guarded by a lock; every layer (base, overlay, component) that
+// carries an `openapi:` field goes through SetSchema again. A builtin version in the lower layer and
+// a version or a schema file in the upper one (and the other way round).
+func (gen *c12Gen) directedOpenAPILayers(g *Rng, t *c12Tree) string {
+	var ks []*c12File
+	for _, f := range t.files {
+		if f.role == "kustomization" && len(f.docs) == 1 && f.docs[0].Kind == yaml.MappingNode {
+			ks = append(ks, f)
+		}
+	}
+	if len(ks) < 2 {
+		return ""
+	}
+	version := func() *yaml.Node {
+		return ym("version", ys(g.Pick([]string{"v1.21.2", "v1.21.2", "v1.21.2", "v1.20.4", "v1.19.1", "", "latest"})))
+	}
+	what := []string{}
+	n := 2
+	if len(ks) > 2 && g.Chance(40) {
+		n = 3
+	}
+	for i := 0; i < n; i++ {
+		f := ks[(i*7+g.Intn(len(ks)))%len(ks)]
+		if i < 2 {
+			f = ks[i*(len(ks)-1)] // the lowest and the top layer always
+		}
+		k := f.docs[0]
+		if existing := mapGet(k, "openapi"); existing != nil && mapGet(existing, "path") != nil && g.Chance(70) {
+			what = append(what, "path@"+f.path)
+			continue // keep a custom schema file in that layer
+		}
+		mapSet(k, "openapi", version())
+		what = append(what, mapGet(mapGet(k, "openapi"), "version").Value+"@"+f.path)
+	}
+	return fmt.Sprintf("directed:openapi-layers %s @%s:", strings.Join(what, ","), ks[len(ks)-1].path)
 }
 
 // ---------- family 4: a file that a directive names is empty (or holds no document) ----------
